@@ -12,7 +12,12 @@ Local Open Scope N_scope.
 (** The merged internal stream under every iterator (sources in the order of
     lsm.NewIterators, binary tree of MergeIterators, left node kept on equal
     internal keys) answers a seek exactly like the point read LSM.Get, for
-    every state satisfying the LSM ordering invariant, every key and version. *)
+    every key and version and every state satisfying [iter_inv]: sorted
+    sources, disjoint main tables, and copies of one internal key most recent
+    first in scan order ([scan_inv]).  Since the repair of LSM.Get (greatest
+    version over every source) no version order between sources is needed:
+    every theorem below holds under this weaker invariant, e.g. for states
+    mixing plain-API (sentinel version) and transactional writes. *)
 Theorem C06_merged_stream_matches_get : forall s k v,
   iter_inv s -> seq_functional (all_recs (tiers_of s)) ->
   src_search k v (db_stream current s false PRewind) = Lsm.get s k v.
